@@ -40,10 +40,10 @@ static const char* PKN[] = {"lcc", "albers", "polarstereo"};
 // ------------------------------------------------------------------------------ ellipsoids
 struct EllCfg { double a, f; std::string cls, grp, kind; bool extreme; };
 static EllCfg mk_ell(double a, double f) {
-  EllCfg e; e.a = a; e.f = f; e.extreme = (1 - f) > 3 || (1 - f) < 0.15;
+  EllCfg e; e.a = a; e.f = f; e.extreme = (1 - f) > 3 || (1 - f) < 0.2;
   double af = std::fabs(f);
   e.kind = f == 0 ? "sphere" : (f > 0 ? "oblate" : "prolate");
-  if (e.extreme) { e.cls = f > 0 ? "oblate-extreme(b/a<0.15)" : "prolate-extreme(b/a>3)"; e.grp = "extreme"; }
+  if (e.extreme) { e.cls = f > 0 ? "oblate-extreme(b/a<0.2)" : "prolate-extreme(b/a>3)"; e.grp = "extreme"; }
   else if (f == 0) { e.cls = "sphere"; e.grp = "|f|<=0.011"; }
   else if (af <= 1e-6) { e.cls = e.kind + "-nearly-spherical"; e.grp = "|f|<=0.011"; }
   else if (af <= 0.011) { e.cls = e.kind + "-earthlike"; e.grp = "|f|<=0.011"; }
@@ -55,7 +55,7 @@ static const double F_LADDER[] = {0, 1e-8, -1e-8, 1 / 298.257223563, 0.01, -0.01
 static const int NF = 10;
 static const double A_LADDER[] = {1, 6.4e6};
 static const double K_LADDER[] = {0.5, 0.994, 1, 3};
-static const double F_EXTREME[] = {0.92, 0.95, -2.5, -4};
+static const double F_EXTREME[] = {0.85, 0.92, 0.95, -2.5, -4};
 
 static EllCfg gen_ell(vh::Rng& r) {
   double f, a;
@@ -64,7 +64,7 @@ static EllCfg gen_ell(vh::Rng& r) {
   case 6: f = r.sign() * r.logu(1e-12, 0.3); break;
   case 7: f = r.uniform(-1, 0.5); break;
   case 8: f = r.uniform(0.003, 0.0036); break;
-  default: f = r.uniform(-2, 0.85); break;      // b/a in [0.15, 3]
+  default: f = r.uniform(-2, 0.8); break;       // b/a in [0.2, 3]
   }
   a = r.coin(0.6) ? r.pick(A_LADDER) : r.logu(0.1, 1e8);
   return mk_ell(a, f);
@@ -212,16 +212,16 @@ static int build(Model& M, PK pk, const EllCfg& e, const ParCfg& par, double k1,
   expect_throw = false;
   // input regimes with a known defect mechanism (decided from the inputs only)
   M.regime.clear(); M.hardregime = false;
-  if (e.extreme) { M.regime = "extreme-eccentricity(b/a<0.15-or->3)"; M.hardregime = true; }
+  if (e.extreme) { M.regime = "extreme-eccentricity(b/a<0.2-or->3)"; M.hardregime = true; }
   else if (pk != P_PS) {
     SC q1 = par.p1(), q2 = par.p2(); bool distinct = !refp::same(q1, q2);
     Q cmin = q1.c < q2.c ? q1.c : q2.c, cmax = q1.c < q2.c ? q2.c : q1.c; (void)cmax;
     if (pk == P_LCC) {
-      if (distinct && 1 - M.E.e2 * q1.s * q2.s <= 0) M.regime = "prolate-opposite-hemisphere-parallels(1-e2*sin1*sin2<=0)";
-      else if ((q1.c > 0 && q1.c < 1e-15Q) || (q2.c > 0 && q2.c < 1e-15Q)) M.regime = "near-polar-parallel(0<cos<1e-15)";
+      if ((q1.c > 0 && q1.c < 1e-15Q) || (q2.c > 0 && q2.c < 1e-15Q)) M.regime = "near-polar-parallel(0<cos<1e-15)";
       else if (distinct && (((e.f > 0.25 || e.f < -0.5) && cmin < 0.05Q) || (std::fabs(e.f) > 0.005 && cmin < 1e-6Q)))
         // the documented accuracy of lat0 (4.5e-14 deg) is reached for |f| <~ 0.005 only; it degrades roughly like f^2/colatitude
         M.regime = "eccentric-near-polar-pair(|f|>0.005&cos<1e-6|f>0.25&cos<0.05|f<-0.5&cos<0.05)";
+      else if (distinct && 1 - M.E.e2 * q1.s * q2.s <= 0) M.regime = "prolate-opposite-hemisphere-parallels(1-e2*sin1*sin2<=0)";
     } else {
       if (distinct && q1.c == 0) { M.regime = "first-parallel-at-pole"; M.hardregime = true; }
       else if (distinct && fabsq(M.E.e2 + 3) < 1e-2Q) M.regime = "e2~-3";
@@ -685,7 +685,7 @@ static void sec_rnd(Ctx& c, uint64_t, PK pk) {
 // more extreme ellipsoids than the property's working range of Math::tauf (own key suffix)
 static void sec_extreme(Ctx& c, uint64_t idx) {
   Model M; vh::Rng& r = c.rng; PK pk = (PK)(idx % 3);
-  EllCfg e = mk_ell(r.pick(A_LADDER), r.coin() ? r.pick(F_EXTREME) : (r.coin() ? r.uniform(0.9, 0.97) : r.uniform(-5, -2)));
+  EllCfg e = mk_ell(r.pick(A_LADDER), r.coin() ? r.pick(F_EXTREME) : (r.coin() ? r.uniform(0.8, 0.97) : r.uniform(-5, -2)));
   ParCfg par = pk == P_PS ? ParCfg{} : gen_par(r);
   if (!build_checked(c, M, pk, e, par, gen_k1(r), r.coin())) return;
   exercise(c, M, 6, 3);
